@@ -56,6 +56,9 @@ def allowed_external(fn, generic=()):
         return not any('Option' in g for g in generic)
     if fn.startswith('core::option::Option::<T>::') and short in ('is_some', 'is_none'):
         return True
+    # Option combinators: None stays None, the closure (checked by the taint engine as a body of its own) computes the Some case
+    if fn in ('core::option::Option::<T>::and_then', 'core::option::Option::<T>::map'):
+        return True
     # the `?` operator on Option: value-preserving plumbing (Some(v) -> v, None -> return None)
     if fn.startswith('<core::option::Option<T> as core::ops::') and short in ('branch', 'from_residual', 'from_output'):
         return True
@@ -224,22 +227,39 @@ def d2(rep, f, c):
                 continue
             cee = [e for e in p.conds() if is_call(e[1], 'Encoding::can_encode_everything')]
             base = [e for e in p.calls() if e[1] == 'Encoder::max_buffer_length_from_%s_without_replacement' % src]
-            add = [e for e in p.calls() if e[1] == 'checked_add' or (e[1] or '').endswith('::checked_add')]
-            if len(cee) != 1 or len(base) != 1 or base[0][2][1] != ('loc', 2):
+            if len(base) != 1 or base[0][2][1] != ('loc', 2):
                 ok = False
                 continue
-            extra = None
-            for e in add:
-                for a in e[2]:
-                    if a[0] == 'c':
-                        extra = a[1]
-            # the extra may be selected by an if-expression feeding one checked_add
-            if extra is None:
-                for e in p.events:
-                    if e[0] == 'set' and e[2][0] == 'c' and e[2][2] == 'usize':
-                        extra = e[2][1]
+            bexpr = ('call', base[0][1], base[0][2], base[0][3])
+            bpay = ('fld', ('as', bexpr, 'Some'), '0')
+            bnone = [e for e in p.conds() if e[1] == ('variant', bexpr) and e[2] == 'None']
+            rv = p.env.get(0)
+            # the result in normal form: base + extra, in any of the ways it can be plumbed
+            extra = '?'
+            if bnone:
+                if rv is not None and variant_name(rv) == 'None':
+                    continue                  # overflow of the inner query propagates as None: either branch
+                ok = False
+                continue
+            if rv == bexpr or (rv is not None and variant_name(rv) == 'Some' and rv[2] and rv[2][0] == bpay):
+                extra = 0
+            elif rv is not None and rv[0] == 'call' and (rv[1] == 'checked_add' or (rv[1] or '').endswith('::checked_add')) and len(rv[2]) == 2:
+                a0, a1 = rv[2]
+                for x, y in ((a0, a1), (a1, a0)):
+                    if y in (bexpr, bpay):
+                        if x[0] == 'c':
+                            extra = x[1]
+                        elif x[0] == 'loc' or x[0] == 'init':
+                            # an if-selected constant feeding one checked_add: its value on this path
+                            for e in p.events:
+                                if e[0] == 'set' and e[2][0] == 'c' and e[2][2] == 'usize':
+                                    extra = e[2][1]
+            if len(cee) != 1:
+                # the query may be asked in either order: a path that does not consult can_encode_everything must not add anything
+                ok &= extra == 0 and False
+                continue
             if cee[0][2] is True:
-                ok &= extra in (0, None)
+                ok &= extra == 0
                 seen.add('all')
             else:
                 ok &= extra == ncr
